@@ -1263,6 +1263,29 @@ fn reduce_ref(seed: u64) -> serde_json::Value {
                 }
             }
         }
+
+        // Concatenate along every axis: operands that agree outside the axis
+        for (base, axis, ns) in [(vec![2u64, 3], 0usize, vec![1u64, 2, 3]), (vec![2, 3], 1, vec![2, 1]), (vec![2, 2, 3], 1, vec![1, 3]), (vec![3, 2, 2], 2, vec![2, 1, 1]), (vec![4], 0, vec![1, 5])] {
+            tried += 1;
+            let shapes: Vec<Vec<u64>> = ns.iter().map(|n| { let mut s = base.clone(); s[axis] = *n; s }).collect();
+            let datas: Vec<Vec<u128>> = shapes.iter().map(|s| { let n: u64 = s.iter().product(); (0..n).map(|_| reduce(((rng.next() as u128) << 64) | rng.next() as u128)).collect() }).collect();
+            let mut rsh = base.clone(); rsh[axis] = ns.iter().sum();
+            let rn: u64 = rsh.iter().product();
+            let mut want = vec![0u128; rn as usize];
+            let mut off = 0u64;
+            for (s, d) in shapes.iter().zip(datas.iter()) { let n: u64 = s.iter().product(); for i in 0..n { let mut ix = unrank(i, s); ix[axis] += off; want[rank(&ix, &rsh) as usize] = d[i as usize]; } off += s[axis]; }
+            let types: Vec<Type> = shapes.iter().map(|s| array_type(s.clone(), st)).collect();
+            let r = catch_unwind(AssertUnwindSafe(|| -> Result<Vec<u128>> {
+                let c = simple_context(|g| { let mut ins = vec![]; for t in &types { ins.push(g.input(t.clone())?); } g.concatenate(ins, axis as u64) })?;
+                let rt = c.get_main_graph()?.get_output_node()?.get_type()?;
+                let vals: Vec<Value> = datas.iter().map(|d| Value::from_flattened_array(d, st).unwrap()).collect();
+                random_evaluate(c.get_main_graph()?, vals)?.to_flattened_array_u128(rt) }));
+            let got: Vec<u128> = match r { Ok(Ok(x)) => x.into_iter().map(reduce).collect(),
+                Ok(Err(e)) => return json!({"found": true, "routine": "reduce_ref", "property": "C10", "input": {"op": "concatenate", "shapes": shapes, "axis": axis, "scalar_type": format!("{}", st)}, "observed": format!("error: {}", e)}),
+                Err(_) => return json!({"found": true, "routine": "reduce_ref", "property": "C10", "input": {"op": "concatenate", "shapes": shapes, "axis": axis, "scalar_type": format!("{}", st)}, "observed": "panic"}) };
+            if got != want { return json!({"found": true, "routine": "reduce_ref", "property": "C10", "input": {"op": "concatenate", "shapes": shapes, "axis": axis, "scalar_type": format!("{}", st)},
+                "expected": want.iter().map(|x| x.to_string()).collect::<Vec<_>>(), "observed": got.iter().map(|x| x.to_string()).collect::<Vec<_>>(), "what": "SimpleEvaluator vs. a reference working on multi-indices"}); }
+        }
     }
     json!({"found": false, "routine": "reduce_ref", "tried": tried})
 }
